@@ -164,7 +164,7 @@ RESOLVER = {
             "random": [("wild", 3000, 30000), ("general", 1500, 15000), ("multi", 1000, 10000), ("redef", 500, 5000),
                        ("convert", 500, 5000)]},
     "C07": {"inv": ["C07", "C07h"], "minv": ["C07"], "reps": (25, 100), "family": "C07", "random": [("general", 300, 3000)], "model": (200, 2000)},
-    "C08": {"inv": ["C08", "C01", "C04", "C06"], "minv": ["C08"], "reps": (3, 6), "family": "C08", "life": True, "linv": ["C08life"], "random": [("redef", 2500, 30000), ("redeffail", 800, 10000)]},
+    "C08": {"inv": ["C08", "C08k", "C01", "C04", "C06"], "minv": ["C08"], "reps": (3, 6), "family": "C08", "life": True, "linv": ["C08life"], "random": [("redef", 2500, 30000), ("redeffail", 800, 10000)]},
     "C10": {"inv": ["C10", "C01", "C02", "C04", "C05", "C05gen", "C06"], "minv": ["C10"], "reps": (4, 8), "family": "C10",
             "random": [("convcall", 3500, 35000), ("convert", 800, 8000), ("convgens", 600, 6000)], "model": (600, 6000)},
     "C16": {"inv": ["C16", "C03", "OptsIntact"], "minv": ["C16"], "reps": (6, 12), "family": "C16", "random": [("wild", 800, 8000), ("general", 500, 5000)], "model": (300, 3000)},
